@@ -270,8 +270,14 @@ func (z *Polyizer) Of(v ssa.Value) Poly {
 		}
 		if x.Op == token.MUL {
 			// load of a local / capture cell that is stored exactly once
+			// with a parameter or a constant (a pure capture)
 			if val, ok := singleStoreValue(x.X); ok && isIntegral(val.Type()) {
-				return z.Of(val)
+				if _, isParam := strip(val).(*ssa.Parameter); isParam {
+					return z.Of(val)
+				}
+				if _, isConst := constEval(val); isConst {
+					return z.Of(val)
+				}
 			}
 		}
 	}
@@ -312,14 +318,6 @@ func (z *Polyizer) defaultAtom(v ssa.Value) string {
 		}
 	case *ssa.UnOp:
 		if x.Op == token.MUL {
-			// load of a capture cell holding a single value
-			if val, ok := singleStoreValue(x.X); ok {
-				inner := z.Of(val)
-				if a, ok := inner.singleAtom(); ok {
-					return a
-				}
-				return "(" + inner.String() + ")"
-			}
 			return pathString(accessPath(x.X))
 		}
 	case *ssa.Field:
